@@ -218,17 +218,34 @@ class Tensor(Funsor, metaclass=TensorMeta):
         if not subs:
             return self
 
-        # Handle diagonal variable substitution
-        var_counts = Counter(v for v in subs.values() if isinstance(v, Variable))
-        # Renaming onto an input that is not itself renamed away also selects
-        # a diagonal.
-        var_counts.update(
-            Variable(k, d)
-            for k, d in self.inputs.items()
-            if not isinstance(subs.get(k), (Variable, Slice))
-        )
+        # Handle diagonal variable substitution.
+        # Renaming (to a Variable or Slice) can be done by relabeling dims only
+        # if the new names are distinct and do not clash with inputs that keep
+        # their name or are substituted by something else; other renamings are
+        # materialized and handled by advanced indexing.
+        renames = {
+            k: v.name for k, v in subs.items() if isinstance(v, (Variable, Slice))
+        }
+        while True:
+            counts = Counter(renames.values())
+            clashes = [
+                k
+                for k, name in renames.items()
+                if counts[name] > 1 or (name in self.inputs and name not in renames)
+            ]
+            if not clashes:
+                break
+            for k in clashes:
+                del renames[k]
         subs = OrderedDict(
-            (k, self.materialize(v) if var_counts[v] > 1 else v)
+            (
+                k,
+                (
+                    self.materialize(v)
+                    if isinstance(v, (Variable, Slice)) and k not in renames
+                    else v
+                ),
+            )
             for k, v in subs.items()
         )
 
